@@ -8,6 +8,7 @@ CONSTANTS
   MinTotal = 6
   Leaky = FALSE
   Alphabet <- AllCmds
+  PreAlphabet <- AllCmds
   Kinds <- AllKinds
   Ctxs <- BothCtxs
 INIT Init
